@@ -66,7 +66,7 @@ def main():
         res = {}
         for c in checks:
             rc, out = sh("python3 %s/tools/run_check.py %s --repo %s" % (ROOT, c, wt), timeout=3600)
-            lines = [l for l in out.split("\n") if l.startswith(("VIOLATION", "FAILED-OBLIGATION", "UNDECIDED", "OK ", "KNOWN-FINDING"))]
+            lines = [l for l in out.split("\n") if l.startswith(("VIOLATION", "FAILED-OBLIGATION", "UNDECIDED", "OK ", "KNOWN-FINDING", "LINK[", "WITNESS"))]
             res[c] = {"exit": rc, "lines": [l[:400] for l in lines[:8]]}
             print("check %s -> exit %d" % (c, rc)); [print("   ", l[:300]) for l in lines[:6]]
             meta["ran"].append("./check %s against the changed tree: exit %d" % (c, rc))
